@@ -237,6 +237,52 @@ func genLeafRuns(r *rng, kinds []LeafCfg, budgets []int, fullMasks bool, emit fu
 	}
 }
 
+// genWaitCancelRuns: an ASYNCHRONOUS cancellation arrives while Run waits between two attempts (no callback
+// cancels): retryable kinds x budgets x interrupted wait x fallback outcome x context kind. The wait before
+// attempt `at` is interrupted; earlier waits fire, so they are short when at > 1.
+func genWaitCancelRuns(r *rng, kinds []LeafCfg, emit func(FlowScenario)) {
+	t := &tokGen{r: r}
+	ctxKinds := []string{"canceled", "deadline", "cause", "fardeadline"}
+	cnt := 0
+	for _, k := range kinds {
+		if !k.Retryable || k.ExecS == "absent" {
+			continue
+		}
+		for _, N := range []int{2, 3} {
+			for at := 1; at < N; at++ {
+				if at == 2 && cnt%4 != 0 { // a fired 120 ms wait each: keep these few
+					cnt++
+					continue
+				}
+				for _, fbOK := range []bool{true, false} {
+					if k.Fb != "custom" && !fbOK {
+						continue
+					}
+					cfg := k
+					cfg.Budget = N
+					cfg.Wait = 3600000
+					if at > 1 {
+						cfg.Wait = 120
+					}
+					t.next, t.errN = r.intn(30), r.intn(20)
+					scr := t.leafScript(0, 0, true, 0, N+1, fbOK, postStr(t, cnt%2, "a"))
+					scr.WaitCancel = []int{at}
+					cnt++
+					var sc FlowScenario
+					if cnt%3 == 0 {
+						sc = asFlowStep(cfg, scr, t)
+						sc.Steps = sc.Steps[:1]
+					} else {
+						sc = singleRun(cfg, scr)
+					}
+					sc.Kind = ctxKinds[cnt%len(ctxKinds)]
+					emit(sc)
+				}
+			}
+		}
+	}
+}
+
 // ---- batch scenarios (deterministic paths: sequential, one worker, and schedule-independent c>=2) ----
 
 func (t *tokGen) itemScript(mask uint, attempts int, fbOK bool, execS string) ItemScript {
